@@ -5,6 +5,7 @@ package main
 // dereferenced where a dominating test has excluded the empty span (rank) or nil.
 
 import (
+	"fmt"
 	"go/constant"
 	"go/token"
 	"go/types"
@@ -300,4 +301,156 @@ func nilSpanRule(p *Prog) (ok, bad []nilFinding) {
 	sortF(ok)
 	sortF(bad)
 	return
+}
+
+// errNilRule (C04.8 ERR-NIL): a function that returns (*T, error) and has a
+// `return nil, err` path promises a usable pointer only when the error is nil.
+// A caller that does not look at the error and then dereferences the pointer
+// (calls a method on it, reads a field) panics on exactly the inputs for which
+// the callee failed, e.g. a requirement string that does not parse. For every
+// in-scope call of such a function whose error result is unused or never
+// tested: the pointer result is not dereferenced.
+func errNilRule(r *Report, p *Prog, rule string) int {
+	// callees that can return (nil, non-nil error)
+	mayReturnNil := map[*ssa.Function]bool{}
+	for _, f := range p.Funcs {
+		if f.Blocks == nil || f.Signature.Results().Len() != 2 {
+			continue
+		}
+		if _, isPtr := f.Signature.Results().At(0).Type().Underlying().(*types.Pointer); !isPtr {
+			continue
+		}
+		if f.Signature.Results().At(1).Type().String() != "error" {
+			continue
+		}
+		for _, b := range f.Blocks {
+			if ret, ok := b.Instrs[len(b.Instrs)-1].(*ssa.Return); ok && len(ret.Results) == 2 {
+				if c, ok := ret.Results[0].(*ssa.Const); ok && c.IsNil() {
+					mayReturnNil[f] = true
+				}
+			}
+		}
+	}
+	// ... and callees that hand on the pointer of such a callee
+	for changed := true; changed; {
+		changed = false
+		for _, f := range p.Funcs {
+			if mayReturnNil[f] || f.Blocks == nil || f.Signature.Results().Len() != 2 {
+				continue
+			}
+			for _, b := range f.Blocks {
+				ret, ok := b.Instrs[len(b.Instrs)-1].(*ssa.Return)
+				if !ok || len(ret.Results) != 2 {
+					continue
+				}
+				if ex, ok := ret.Results[0].(*ssa.Extract); ok && ex.Index == 0 {
+					if c, ok := ex.Tuple.(*ssa.Call); ok && c.Common().StaticCallee() != nil && mayReturnNil[c.Common().StaticCallee()] {
+						mayReturnNil[f] = true
+						changed = true
+					}
+				}
+			}
+		}
+	}
+	n := 0
+	for _, f := range p.Funcs {
+		if !p.inScope(f) || f.Blocks == nil || f.Synthetic != "" {
+			continue
+		}
+		per := 0
+		for _, b := range f.Blocks {
+			for _, in := range b.Instrs {
+				c, ok := in.(*ssa.Call)
+				if !ok {
+					continue
+				}
+				sc := c.Common().StaticCallee()
+				if sc == nil || !mayReturnNil[sc] || c.Referrers() == nil {
+					continue
+				}
+				var ptr, errv *ssa.Extract
+				for _, ref := range *c.Referrers() {
+					if ex, ok := ref.(*ssa.Extract); ok {
+						if ex.Index == 0 {
+							ptr = ex
+						} else {
+							errv = ex
+						}
+					}
+				}
+				if ptr == nil {
+					continue
+				}
+				errUsed := false
+				if errv != nil && errv.Referrers() != nil {
+					for _, u := range *errv.Referrers() {
+						if _, dbg := u.(*ssa.DebugRef); !dbg {
+							errUsed = true
+						}
+					}
+				}
+				if errUsed {
+					continue // the error is looked at; which branch dereferences is C04.1-7's and the tests' business
+				}
+				n++
+				per++
+				key := fmt.Sprintf("%s: result of %s #%d, whose error is discarded, is not dereferenced", fnKey(f), fnKey(sc), per)
+				var deref ssa.Instruction
+				seenV := map[ssa.Value]bool{}
+				var look func(v ssa.Value, d int)
+				look = func(v ssa.Value, d int) {
+					if deref != nil || d > 6 || seenV[v] || v.Referrers() == nil {
+						return
+					}
+					seenV[v] = true
+					for _, u := range *v.Referrers() {
+						switch x := u.(type) {
+						case *ssa.FieldAddr:
+							if x.X == v {
+								deref = x
+							}
+						case *ssa.UnOp:
+							if x.X == v {
+								if _, isCell := v.(*ssa.Alloc); isCell {
+									look(x, d+1) // a load of the variable: follow the loaded pointer
+								} else if _, isFV := v.(*ssa.FreeVar); isFV {
+									look(x, d+1)
+								} else {
+									deref = x
+								}
+							}
+						case *ssa.Call:
+							if len(x.Common().Args) > 0 && x.Common().Args[0] == v && x.Common().StaticCallee() != nil && x.Common().StaticCallee().Signature.Recv() != nil {
+								deref = x
+							}
+						case *ssa.Store:
+							// the pointer is kept in a local variable (a captured one lives in a cell)
+							if x.Val == v {
+								if al, ok := x.Addr.(*ssa.Alloc); ok {
+									look(al, d+1)
+								}
+							}
+						case *ssa.MakeClosure:
+							if fnc, ok := x.Fn.(*ssa.Function); ok {
+								for i, bnd := range x.Bindings {
+									if bnd == v && i < len(fnc.FreeVars) {
+										look(fnc.FreeVars[i], d+1)
+									}
+								}
+							}
+						case *ssa.Phi:
+							look(x, d+1)
+						}
+					}
+				}
+				look(ptr, 0)
+				if deref != nil {
+					r.bad(rule, key, p.pos(deref.Pos()), fnKey(sc)+" returns a nil pointer together with its error, the error is discarded here, and the pointer is dereferenced: the input for which the callee fails (a requirement that does not parse) makes this panic instead of returning an error")
+				} else {
+					r.ok(rule, key, p.pos(c.Pos()), "the pointer is only passed on or compared")
+				}
+			}
+		}
+	}
+	return n
 }
